@@ -34,7 +34,8 @@ def rule_tie(chk: Check, view: AsyncView, rid: str):
     pop = one(queue_ops(r, "q_ts_next_step", "popleft"), "popleft on q_ts_next_step")
     s = T.mk_index(pop.term, T.const(1))
     loops = [(lid, l) for lid, l in r.loops.items() if l.kind == "for" and l.iter == S("self.q_ts_input")]
-    chk.floor(rid, "selection loops over q_ts_input", len(loops), 2)
+    # (one loop per jitter mode, or one loop whose stop condition depends on the mode: counted per mode it is active for)
+    chk.floor(rid, "selection loops over q_ts_input", sum(1 for lid, l in loops for mt in (LATEST, BUFFER) if T.subst(l.guard, {JITTER: mt}) != T.FALSE), 2)
     seen_modes = set()
     for lid, l in loops:
         el = ("elem", l.iter, lid)
@@ -430,7 +431,7 @@ def rule_window(chk: Check, view: AsyncView, rid: str):
         ok = len(carried) == 1
         if ok:
             n, v = carried[0]
-            ok = v[0] == "call" and T.call_name(v).endswith("._jit_update_input_state") and v[2] == (l.env_in[n],) + tuple(T.mk_index(el, T.const(i)) for i in range(4))
+            ok = v[0] == "call" and T.call_name(v).endswith("._jit_update_input_state") and v[2] in ((l.env_in[n],) + tuple(T.mk_index(el, T.const(i)) for i in range(4)), (l.env_in[n], ("star", el)))  # (entry unpacked, or passed on as *entry)
             conn_obj = T.mk_index(("elem", T.mk_call("self.inputs.items", []), gp.loops[-1]), T.const(1)) if gp.loops else None
             pre = l.pre.get(n)
             name_t = T.mk_index(("elem", T.mk_call("self.inputs.items", []), gp.loops[-1]), T.const(0)) if gp.loops else None
